@@ -53,6 +53,7 @@ type scnSpec struct {
 	zrtt   string // none | accept | reject | reject-params (session resumption with 0-RTT data)
 	net    string // ok | blackhole | hsblock: paths on which the handshake cannot complete (timeouts)
 	cancel string // none | t<ms> | vn | retry | first: when the application cancels the dial context
+	psk    string // resumption scenarios with a spec-driven (parrot) client: what the scenario appends to the preset ClientHelloSpec - none | psk (pre_shared_key) | psked (early_data + pre_shared_key)
 }
 
 type faultSpec struct {
@@ -85,6 +86,9 @@ type delivery struct {
 	extra     []string
 	closed    string
 	line      string
+	sentB     []string // level lists of the datagrams this connection sent since its previous line, before this delivery
+	sentA     []string // ... and in reaction to this delivery
+	ikPost    string   // what GetInitialOpener answers after the delivery
 }
 
 type partSum struct {
@@ -141,6 +145,10 @@ type scenario struct {
 	cands      []protocol.ConnectionID // destination connection IDs the client has used
 	srvSCIDs   [][]byte                // source connection IDs seen in genuine server long-header packets
 	retrySCIDs [][]byte
+	c2sBase    int              // index of the first client datagram of the dial that is traced (owned by the delivery goroutine)
+	c2sTaken   map[int]bool     // client datagrams on the wire that were already attributed to a connection
+	sentPend   map[int][]string // per client connection: level lists of the datagrams it sent since its last traced line
+	hsFired    atomic.Bool      // the "client's first Handshake packet is on the wire" trigger went off
 }
 
 func boolTxt(b bool) string {
@@ -237,6 +245,22 @@ func (sc *scenario) know() knowledge {
 	if n := len(sc.srvSCIDs); n > 0 {
 		k.sSCID, k.hasS = protocol.ParseConnectionID(sc.srvSCIDs[n-1]), true
 	}
+	// the Initial keys in use: derived from the destination ID of the latest client Initial that is not addressed to
+	// an ID the server chose for itself (after a Retry: the Retry's source ID)
+	for i := sc.c2sBase; i < len(c2s) && k.ok; i++ {
+		if len(c2s[i]) == 0 || !wire.IsLongHeaderPacket(c2s[i][0]) {
+			continue
+		}
+		hdr, _, _, err := wire.ParsePacket(c2s[i])
+		if err != nil || hdr.Type != protocol.PacketTypeInitial || hdr.Version != k.version {
+			continue
+		}
+		d := hdr.DestConnectionID.Bytes()
+		if contains(sc.srvSCIDs, d) && !contains(sc.retrySCIDs, d) {
+			continue
+		}
+		k.iniCID, k.hasIni = hdr.DestConnectionID, true
+	}
 	sc.mu.Unlock()
 	return k
 }
@@ -260,6 +284,72 @@ func (sc *scenario) noteClientCIDs() {
 			}
 		}
 	}
+}
+
+// levelsOf lists the encryption levels of the packets of a datagram the client sent, in order:
+// i(nitial) h(andshake) z(ero-RTT) s(hort header); and the source connection ID / version of its first packet.
+func levelsOf(data []byte) (levels string, scid []byte, ver uint32, long bool) {
+	for len(data) > 0 {
+		if data[0] == 0 {
+			break // padding of the datagram behind the last packet (parrot clients)
+		}
+		if !wire.IsLongHeaderPacket(data[0]) {
+			levels += "s"
+			break
+		}
+		hdr, _, rest, err := wire.ParsePacket(data)
+		if err != nil {
+			break
+		}
+		if !long {
+			scid, ver, long = hdr.SrcConnectionID.Bytes(), uint32(hdr.Version), true
+		}
+		switch hdr.Type {
+		case protocol.PacketTypeInitial:
+			levels += "i"
+		case protocol.PacketTypeHandshake:
+			levels += "h"
+		case protocol.PacketType0RTT:
+			levels += "z"
+		default:
+			levels += "x"
+		}
+		data = rest
+	}
+	return
+}
+
+// onClientDatagram is called (from the client's send goroutine) for every datagram the client puts on the wire.
+func (sc *scenario) onClientDatagram(idx int, data []byte) {
+	if idx == 0 {
+		sc.nw.schedule(&pend{trig: true}, 0)
+	}
+	if lv, _, _, _ := levelsOf(data); strings.Contains(lv, "h") && sc.hsFired.CompareAndSwap(false, true) {
+		sc.nw.schedule(&pend{trig: true, when: "hs"}, 0)
+	}
+}
+
+// collectSent: the long-header datagrams the connection (known on the wire by its source connection ID and
+// version) has sent and that were not reported yet, as level lists.
+func (sc *scenario) collectSent(scid []byte, ver uint32) []string {
+	sc.nw.mu.Lock()
+	defer sc.nw.mu.Unlock()
+	var out []string
+	for i := sc.c2sBase; i < len(sc.nw.c2s); i++ {
+		if sc.c2sTaken[i] {
+			continue
+		}
+		lv, s, v, long := levelsOf(sc.nw.c2s[i])
+		if !long {
+			sc.c2sTaken[i] = true // short header only: says nothing about the handshake keys
+			continue
+		}
+		if v == ver && bytes.Equal(s, scid) {
+			sc.c2sTaken[i] = true
+			out = append(out, lv)
+		}
+	}
+	return out
 }
 
 // splitParts parses a datagram the way handleOnePacket walks it.
@@ -396,6 +486,15 @@ func (sc *scenario) deliverTo(srv bool, src string, data, orig []byte, intactAll
 		}
 	}
 	d.parts = splitParts(data, srcLen)
+	// what this client connection has put on the wire since its last line (timer-driven sends included)
+	var wireSCID []byte
+	watchSent := !srv && conn != nil && !d.pre.Closed
+	if watchSent {
+		if c, err := wire.ParseConnectionID(data, srcLen); err == nil {
+			wireSCID = c.Bytes()
+		}
+		sc.sentPend[d.conn] = append(sc.sentPend[d.conn], sc.collectSent(wireSCID, d.pre.Version)...)
+	}
 	// which parts are byte-identical to a part of the genuine datagram this one was made from?
 	var origParts []partSum
 	if orig != nil {
@@ -450,9 +549,14 @@ func (sc *scenario) deliverTo(srv bool, src string, data, orig []byte, intactAll
 	rec.Lock()
 	evs := append([]qlogwriter.Event(nil), rec.Events[n0:]...)
 	rec.Unlock()
+	var sentAfter []string
+	if watchSent {
+		sentAfter = sc.collectSent(wireSCID, d.pre.Version)
+	}
 	if conn != nil {
 		d.post = conn.VerifGateState()
 		kpost.ini, kpost.hs, kpost.one, kpost.zero = conn.VerifKeys()
+		d.ikPost = kpost.ini
 		for i := range d.parts {
 			p := &d.parts[i]
 			k := kpre
@@ -509,12 +613,26 @@ func (sc *scenario) deliverTo(srv bool, src string, data, orig []byte, intactAll
 	// only the handshake phase is traced: afterwards duplicate detection forgets old packet numbers (C07)
 	// and the active connection ID moves (C16), which are not inputs of the gate model. Datagrams for which the
 	// server has no connection yet (the first Initial, before the server created one) are not traced either.
-	skip := (conn != nil && d.pre.HandshakeComplete) || (conn == nil && (srv || sc.hsDone))
+	// Exception: a datagram made of long-header packets only is traced after completion too - Initial and Handshake
+	// packets (forged ones included) must bounce off an endpoint that has discarded those keys.
+	allLong := len(d.parts) > 0
+	for i := range d.parts {
+		if d.parts[i].kind == "short" {
+			allLong = false
+		}
+	}
+	skip := (conn != nil && d.pre.HandshakeComplete && !allLong) || (conn == nil && (srv || sc.hsDone))
 	if os.Getenv("GATE_DEBUG") != "" {
 		fmt.Fprintf(os.Stderr, "deliver %s conn=%d tracing=%v skip=%v hsDone=%v preHC=%v\n", src, d.conn, traced, skip, sc.hsDone, d.pre.HandshakeComplete)
 	}
 	if traced && !skip {
+		if watchSent {
+			d.sentB, d.sentA = sc.sentPend[d.conn], sentAfter
+			sc.sentPend[d.conn] = nil
+		}
 		sc.trace = append(sc.trace, d)
+	} else if watchSent {
+		sc.sentPend[d.conn] = append(sc.sentPend[d.conn], sentAfter...)
 	}
 }
 
@@ -635,15 +753,24 @@ func (d *delivery) render() string {
 	case d.conn < 0:
 		fmt.Fprintf(&sb, " conn=-")
 	case d.srv:
-		fmt.Fprintf(&sb, " conn=s%d ; pre %s phc=%s", d.conn-srvBase, stateTxt(d.pre, true), boolTxt(d.post.HandshakeComplete))
+		fmt.Fprintf(&sb, " conn=s%d ; pre %s phc=%s pcl=%s", d.conn-srvBase, stateTxt(d.pre, true), boolTxt(d.post.HandshakeComplete), boolTxt(d.post.Closed))
 	default:
-		fmt.Fprintf(&sb, " conn=%d ; pre %s phc=%s", d.conn, stateTxt(d.pre, true), boolTxt(d.post.HandshakeComplete))
+		fmt.Fprintf(&sb, " conn=%d ; pre %s phc=%s pcl=%s", d.conn, stateTxt(d.pre, true), boolTxt(d.post.HandshakeComplete), boolTxt(d.post.Closed))
 	}
 	for i := range d.parts {
 		sb.WriteString(" ; part " + d.parts[i].txt())
 	}
 	if len(d.extra) > 0 {
 		sb.WriteString(" ; extra " + strings.Join(d.extra, ","))
+	}
+	if d.conn >= 0 && !d.srv {
+		lst := func(l []string) string {
+			if len(l) == 0 {
+				return "-"
+			}
+			return strings.Join(l, ",")
+		}
+		sb.WriteString(" ; sentb " + lst(d.sentB) + " ; senta " + lst(d.sentA))
 	}
 	sb.WriteString(" | ")
 	if d.conn >= 0 {
@@ -658,6 +785,13 @@ func (d *delivery) render() string {
 		cl = "-"
 	}
 	fmt.Fprintf(&sb, "react %s closed=%s", strings.Join(rs, " "), cl)
+	if d.conn >= 0 {
+		ik := d.ikPost
+		if d.post.Closed {
+			ik = "-" // the packets of a closing connection (CONNECTION_CLOSE) are not registered as sent; its keys do not matter
+		}
+		fmt.Fprintf(&sb, " ; keys ik=%s", ik)
+	}
 	return sb.String()
 }
 
@@ -802,10 +936,29 @@ func (sc *scenario) inject(in *injSpec) {
 func (sc *scenario) fire(after int, srv bool) {
 	for i := range sc.injs {
 		in := &sc.injs[i]
-		if in.after != after || (in.p["to"] == "s") != srv {
+		if in.after != after || (in.p["to"] == "s") != srv || in.p["when"] != "" {
 			continue
 		}
 		if srv && sc.str == nil {
+			continue
+		}
+		if in.delay > 0 {
+			sc.nw.schedule(&pend{inj: in}, time.Duration(in.delay)*time.Millisecond)
+		} else {
+			sc.inject(in)
+		}
+	}
+}
+
+// fireWhen runs the injections anchored at an event of the handshake rather than at a datagram count
+// (when=hs: the client's first Handshake packet is on the wire, i.e. the client has discarded its Initial keys).
+func (sc *scenario) fireWhen(when string) {
+	for i := range sc.injs {
+		in := &sc.injs[i]
+		if in.p["when"] != when {
+			continue
+		}
+		if in.p["to"] == "s" && sc.str == nil {
 			continue
 		}
 		if in.delay > 0 {
@@ -840,7 +993,11 @@ func (sc *scenario) deliverLoop(stopped chan struct{}) {
 				synctest.Wait()
 				sc.noteConns()
 				if sc.isTracing() {
-					sc.fire(0, false)
+					if item.when != "" {
+						sc.fireWhen(item.when)
+					} else {
+						sc.fire(0, false)
+					}
 				}
 			case item.inj != nil:
 				if sc.isTracing() {
@@ -890,6 +1047,11 @@ func (sc *scenario) deliverLoop(stopped chan struct{}) {
 		case <-sc.resetCh:
 			sc.hsDone, sc.nGenuine, sc.genuine = false, 0, nil
 			sc.shsDone, sc.nGenuineS, sc.genuineS = false, 0, nil
+			sc.nw.mu.Lock()
+			sc.c2sBase = len(sc.nw.c2s)
+			sc.nw.mu.Unlock()
+			sc.sentPend = map[int][]string{}
+			sc.hsFired.Store(false)
 		case <-sc.nw.wake:
 		case <-tc:
 		}
@@ -1067,6 +1229,7 @@ type outcome struct {
 	vers     string
 	clag     int64 // virtual ns between the cancellation of the dial context by the scenario and Dial returning (-1: not cancelled)
 	leaked   bool  // a Dial call never returned: its goroutine is left behind
+	startLeak bool // the dial failed because the TLS stack never started (psk=strict): the goroutine stuck in it is left behind
 	acc      string
 	echo     string
 	cleft    int
@@ -1120,6 +1283,8 @@ func (sc *scenario) run() (out *outcome) {
 	sc.rec = &recorder{}
 	sc.seen = map[int]map[string]bool{}
 	sc.buffered = map[int][]partSum{}
+	sc.c2sTaken = map[int]bool{}
+	sc.sentPend = map[int][]string{}
 	sc.done = make(chan struct{})
 	sc.resetCh = make(chan struct{})
 	sc.tracing = true
@@ -1172,11 +1337,7 @@ func (sc *scenario) run() (out *outcome) {
 		}
 		return sc.ctr.Dial(ctx, serverAddr, ctls.Clone(), cconf)
 	}
-	sc.nw.onC2S = func(idx int) {
-		if idx == 0 {
-			sc.nw.schedule(&pend{trig: true}, 0)
-		}
-	}
+	sc.nw.onC2S = sc.onClientDatagram
 	stopped := make(chan struct{})
 	go sc.deliverLoop(stopped)
 
